@@ -188,6 +188,12 @@ def coqc_text(name: str, text: str, timeout=300):
         (CASES / f".{name}.aux").unlink()
     except FileNotFoundError:
         pass
+    if rc == 0:
+        # the case file itself is kept only when its evaluation failed (for inspection)
+        try:
+            f.unlink()
+        except FileNotFoundError:
+            pass
     return rc, out, err
 
 
